@@ -57,7 +57,7 @@ def ensure_hgen():
 def generate(tl2gen, mod, key, schemas, opts, language="go"):
     out = os.path.join(mod, key, "gen")
     os.makedirs(os.path.join(mod, key), exist_ok=True)
-    cmd = [tl2gen, "--language=" + language, "--outdir=" + out, "--pkgPath=vmod/%s/gen" % key] + list(opts) + list(schemas)
+    cmd = [tl2gen, "--language=" + language, "--outdir=" + out, "--pkgPath=vmod/%s/gen/tl" % key] + list(opts) + list(schemas)
     rc, txt = sh(cmd, cwd=mod)
     if rc != 0 or not os.path.isdir(os.path.join(out, "internal")):
         return None, txt
